@@ -438,8 +438,8 @@ func (n *Node) Produce(req *ProduceReq) (rsp *ProduceRsp) {
 			return
 		}
 	}
+	rsp.Hash = blk.BlockHash() // blocks travel with their identifier, as they do on the network
 	rsp.Block = EncBlock(blk)
-	rsp.Hash = blk.BlockHash()
 	rsp.Root = blk.GetHeader().GetBlocksRootHash()
 	rsp.Consensus = blk.GetHeader().GetConsensus()
 	for _, tx := range blk.GetBody().GetTxs() {
